@@ -125,10 +125,26 @@ func (expr *ExprIdentifier) Token() Token { return expr.token }
 func (expr *ExprArray) Token() Token      { return expr.token }
 func (expr *ExprObject) Token() Token     { return expr.token }
 func (expr *ExprUnary) Token() Token      { return expr.OpToken }
-func (expr *ExprBinary) Token() Token     { return expr.Left.Token() }
-func (expr *ExprCall) Token() Token       { return expr.Func.Token() }
+func (expr *ExprBinary) Token() Token     { return leftmostToken(expr.Left) }
+func (expr *ExprCall) Token() Token       { return leftmostToken(expr.Func) }
 func (expr *ExprFunction) Token() Token   { return expr.ident }
 func (expr *ExprMatch) Token() Token      { return expr.token }
+
+// leftmostToken is the token of the leftmost operand of a chain of binary
+// operators and calls. A loop, not recursion: a + b + c + ... and a.b().c()...
+// nest to the left as deep as they are long
+func leftmostToken(expr Expr) Token {
+	for {
+		switch e := expr.(type) {
+		case *ExprBinary:
+			expr = e.Left
+		case *ExprCall:
+			expr = e.Func
+		default:
+			return expr.Token()
+		}
+	}
+}
 
 func (expr *ExprLiteral) String() string    { return "literal" }
 func (expr *ExprIdentifier) String() string { return "identifier" }
